@@ -510,6 +510,95 @@ static std::string op_enc(const std::string& id, const std::string& text) {
   return vh::hex(e) + " " + vh::hexnum(estimate(v));
 }
 
+// ---------------------------------------------------------------- memoised hashes / ids (C11: ids depend only on content)
+// memo <T> <value> <seq>: seq = comma separated tokens, "h" = read hash/id and compare it with the hash/id of a FRESH
+// object decoded from the current encoding; a number = mutate one field through the public API (setter k / public member)
+static void flip(std::vector<uint8_t>& v) {
+  if (v.empty()) v.push_back(1); else v[0] ^= 1;
+}
+template <typename B>
+static B flipped(const B& b) {
+  auto v = b.asVector();
+  flip(v);
+  return B(v);
+}
+static void mutate(VbkBlock& b, int k) {
+  switch (k) {
+    case 0: b.setHeight((b.getHeight() + 1) % 8000); break;
+    case 1: b.setVersion((int16_t)(b.getVersion() ^ 1)); break;
+    case 2: b.setPreviousBlock(flipped(b.getPreviousBlock())); break;
+    case 3: b.setPreviousKeystone(flipped(b.getPreviousKeystone())); break;
+    case 4: b.setSecondPreviousKeystone(flipped(b.getSecondPreviousKeystone())); break;
+    case 5: b.setMerkleRoot(flipped(b.getMerkleRoot())); break;
+    case 6: b.setTimestamp(b.getTimestamp() + 1); break;
+    case 7: b.setDifficulty(b.getDifficulty() ^ 1); break;
+    case 8: b.setNonce((b.getNonce() + 1) & 0xffffffffffULL); break;
+    default: throw std::runtime_error("bad setter index");
+  }
+}
+static void mutate(BtcBlock& b, int k) {
+  switch (k) {
+    case 0: b.setVersion(b.getVersion() ^ 1); break;
+    case 1: b.setPreviousBlock(flipped(b.getPreviousBlock())); break;
+    case 2: b.setMerkleRoot(flipped(b.getMerkleRoot())); break;
+    case 3: b.setDifficulty(b.getDifficulty() ^ 1); break;
+    case 4: b.setNonce(b.getNonce() + 1); break;
+    case 5: b.setTimestamp(b.getTimestamp() + 1); break;
+    default: throw std::runtime_error("bad setter index");
+  }
+}
+static void mutate(ATV& a, int k) {
+  if (k <= 8) return mutate(a.blockOfProof, k);
+  if (k == 9) { a.transaction.signatureIndex ^= 1; return; }
+  if (k == 10) { flip(a.transaction.publicationData.payoutInfo); return; }
+  throw std::runtime_error("bad setter index");
+}
+static void mutate(VTB& v, int k) {
+  if (k <= 8) return mutate(v.containingBlock, k);
+  if (k == 9) { flip(v.transaction.bitcoinTransaction.tx); return; }
+  if (k >= 10 && k <= 15) return mutate(v.transaction.blockOfProof, k - 10);
+  throw std::runtime_error("bad setter index");
+}
+static std::string memo_id(const VbkBlock& b) { return b.getHash().toHex() + "/" + b.getShortHash().toHex() + "/" + b.getId().toHex(); }
+static std::string memo_id(const BtcBlock& b) { return b.getHash().toHex(); }
+static std::string memo_id(const ATV& a) { return a.getId().toHex() + "/" + a.blockOfProof.getHash().toHex(); }
+static std::string memo_id(const VTB& v) {
+  return v.getId().toHex() + "/" + v.containingBlock.getHash().toHex() + "/" + v.transaction.blockOfProof.getHash().toHex();
+}
+template <typename T>
+static std::string op_memo(const std::string& id, const std::string& text, const std::string& seq) {
+  T v;
+  load(parse_tree(text), v);
+  size_t reads = 0;
+  std::string last = "-";
+  std::stringstream ss(seq);
+  std::string tok;
+  while (std::getline(ss, tok, ',')) {
+    if (tok == "h") {
+      std::string got = memo_id(v);
+      auto e = encode(v);
+      ReadStream s(e);
+      T fresh;
+      ValidationState st;
+      if (!decode(s, fresh, st)) {
+        vh::oracle_fail(id, "encoding of the mutated value does not decode: " + st.toString());
+        return "BAD";
+      }
+      std::string want = memo_id(fresh);
+      if (got != want) {
+        vh::oracle_fail(id, "stale memoised hash/id after [" + last + "]: object answers " + got +
+                                " but a fresh object with the same encoding answers " + want);
+      }
+      if (show(dump(fresh)) != show(dump(v))) vh::oracle_fail(id, "decode(encode(v)) != v after [" + last + "]");
+      reads++;
+    } else {
+      mutate(v, std::stoi(tok));
+      last = tok;
+    }
+  }
+  return "OK " + std::to_string(reads) + " " + vh::hex(encode(v));
+}
+
 // ---------------------------------------------------------------- stateless checks (C06)
 struct Params {
   AltChainParamsRegTest alt;
@@ -671,6 +760,13 @@ static std::string handle(const std::string& id, const std::string& op, const st
   if (op == "witness_atv") return witness_atv();
   if (op == "witness_vtb") return witness_vtb();
   if (op == "stats") return std::to_string(g_checked) + " " + std::to_string(g_check_valid);
+  if (op == "memo" && a.size() == 3) {
+    if (a[0] == "vbkblock") return op_memo<VbkBlock>(id, a[1], a[2]);
+    if (a[0] == "btcblock") return op_memo<BtcBlock>(id, a[1], a[2]);
+    if (a[0] == "atv") return op_memo<ATV>(id, a[1], a[2]);
+    if (a[0] == "vtb") return op_memo<VTB>(id, a[1], a[2]);
+    return "UNKNOWN-TYPE";
+  }
   if (a.size() != 2) return "BAD-ARGS";
   const std::string& t = a[0];
   if (t == "address") return run<Address>(id, op, a[1]);
